@@ -108,6 +108,9 @@ func main() {
 			// cancellation of a reverse call on a reconnected client while a handler of the previous connection returns
 			err = c16.StaleCancel(d, res, *seed, "rst", 95000)
 		}
+		if err == nil {
+			err = cancel.ClientContext(res, *seed)
+		}
 	case "C15":
 		res.Rule = "end causes {graceful close, FIN, RST, server-side context cancel} x handler reaction time {0, 15 ms} with five handlers in progress (unary, 300 kB response, stream, notification, reverse-calling), plus the reader-hand-off schedule; every captured context must be cancelled and no goroutine labelled for the dead connection may remain; distinct = (cause, reaction, gate)"
 		err = cancel.ConnectionEnd(d, res, *seed, thorough)
